@@ -130,3 +130,9 @@ package query_context
 //@   ensures result == ctx.upstreamOpt
 //@ func (ctx *Context) InfoField
 //@   nobody
+
+// QOpt: the query's own OPT record (the fresh one NewContext put there), never the client's.
+//@ func (ctx *Context) QOpt [C15]
+//@   log QOpt
+//@   requires ctx != nil && ctx.query != nil && okRRs(ctx.query.Extra) && !noOPT(ctx.query.Extra)
+//@   ensures result != nil && (exists k int :: 0 <= k && k < len(ctx.query.Extra) && isOPT(ctx.query.Extra[k]) && ctx.query.Extra[k].val == result)
